@@ -84,11 +84,12 @@ CONFIGS: Dict[str, Dict[str, List[Dict[str, Any]]]] = {
         ],
     },
     "FlatPack": {
-        "quick": [_c("default"), _c("r2c2", row_blocks=2, col_blocks=2)],
+        "quick": [_c("default"), _c("r2c2", row_blocks=2, col_blocks=2), _c("r2c3", row_blocks=2, col_blocks=3)],
         "thorough": [
             _c("default"), _c("r1c1", row_blocks=1, col_blocks=1), _c("r1c3", row_blocks=1, col_blocks=3),
             _c("r2c2", row_blocks=2, col_blocks=2), _c("r3c2block", row_blocks=3, col_blocks=2, reward="block"),
-            _c("toyrot", gen="toy_rot"), _c("toynorot", gen="toy_norot", reward="block"),
+            _c("toyrot", gen="toy_rot"), _c("toynorot", gen="toy_norot", reward="block"), _c("r2c3", row_blocks=2, col_blocks=3),
+            _c("r4c2", row_blocks=4, col_blocks=2),
         ],
     },
     "JobShop": {
@@ -99,10 +100,11 @@ CONFIGS: Dict[str, Dict[str, List[Dict[str, Any]]]] = {
         ],
     },
     "Knapsack": {
-        "quick": [_c("default"), _c("n10b2sparse", items=10, budget=2.0, reward="sparse")],
+        "quick": [_c("default"), _c("n10b2sparse", items=10, budget=2.0, reward="sparse"), _c("grid12b2", gen="grid", items=12, budget=2.0)],
         "thorough": [
             _c("default"), _c("n3b05", items=3, budget=0.5), _c("n10b2sparse", items=10, budget=2.0, reward="sparse"),
             _c("n10b2", items=10, budget=2.0), _c("n50sparse", items=50, budget=12.5, reward="sparse"),
+            _c("grid12b2", gen="grid", items=12, budget=2.0), _c("grid8b1sparse", gen="grid", items=8, budget=1.0, reward="sparse"),
         ],
     },
     "Tetris": {
@@ -341,7 +343,9 @@ def build(env: str, cfg: Dict[str, Any]):
         from jumanji.environments.packing.knapsack.reward import DenseReward, SparseReward
 
         kw = {}
-        if "items" in c:
+        if c.get("gen") == "grid":
+            kw["generator"] = make_knapsack_grid_generator(c["items"], c["budget"])
+        elif "items" in c:
             kw["generator"] = RandomGenerator(c["items"], c["budget"])
         if "reward" in c:
             kw["reward_fn"] = SparseReward() if c["reward"] == "sparse" else DenseReward()
@@ -526,3 +530,27 @@ def make_sokoban_harness_generator(border: bool, n_levels: int = 24, seed: int =
             )
 
     return HarnessGenerator()
+
+
+def make_knapsack_grid_generator(num_items: int, total_budget: float):
+    """Harness Knapsack generator (subclass of the public Generator): weights are multiples of 1/8 in (0, 1], values
+    uniform, so that items whose weight equals the remaining budget exactly (in float32) really occur."""
+    import jax
+    import jax.numpy as jnp
+    from jumanji.environments.packing.knapsack.generator import Generator
+    from jumanji.environments.packing.knapsack.types import State
+
+    class GridGenerator(Generator):
+        def __call__(self, key):
+            key, wk, vk = jax.random.split(key, 3)
+            weights = jax.random.randint(wk, (self.num_items,), 1, 9).astype(jnp.float32) / 8.0
+            values = jax.random.uniform(vk, (self.num_items,), minval=0, maxval=1)
+            return State(
+                weights=weights,
+                values=values,
+                packed_items=jnp.zeros(self.num_items, dtype=bool),
+                remaining_budget=jnp.array(self.total_budget, float),
+                key=key,
+            )
+
+    return GridGenerator(num_items, total_budget)
